@@ -186,6 +186,29 @@ func c20Gen(rt *rapid.T, kind sim.Kind) c20Workload {
 	return w
 }
 
+// c20CheckPack: a pack built at any moment carries whole units only - a transaction header is followed by all the
+// operations it announces (what is pushed is stored as it comes; a unit torn over two packs can be separated by
+// another client's operations in the server's log).
+func c20CheckPack(p *model.PushPullPack, note func(interface{})) {
+	ops := p.Operations
+	for i := 0; i < len(ops); {
+		n := 1
+		if ops[i].OpType == model.TypeOfOperation_TRANSACTION {
+			var hb txHeader
+			_ = json.Unmarshal(ops[i].Body, &hb)
+			n = int(hb.NumOfOps)
+			if n < 1 {
+				n = 1
+			}
+			if i+n > len(ops) {
+				note(fmt.Sprintf("a pack built while a transaction was being queued carries only part of it: the header at position %d (seq %d) announces %d operations, %d follow in the pack", i, ops[i].ID.Seq, n, len(ops)-i))
+				return
+			}
+		}
+		i += n
+	}
+}
+
 type c20Outcome struct {
 	hung        bool
 	stacks      string
@@ -268,9 +291,9 @@ func c20Run(wl c20Workload) (*sim.World, *c20Outcome) {
 		}
 		return sim.Exec(wl.Kind, view, c)
 	}
-	var inflight, inTx int32
+	var inflight, inTx, scriptsDone int32
 	var mu sync.Mutex
-	var wg sync.WaitGroup
+	var wg, swg sync.WaitGroup // swg: the script goroutines only
 	note := func(p interface{}) {
 		mu.Lock()
 		out.panics = append(out.panics, fmt.Sprint(p))
@@ -287,8 +310,10 @@ func c20Run(wl c20Workload) (*sim.World, *c20Outcome) {
 	leave := func() { atomic.AddInt32(&inflight, -1) }
 	for gi, script := range wl.Scripts {
 		wg.Add(1)
+		swg.Add(1)
 		go func(gi int, script []c20Step) {
 			defer wg.Done()
+			defer swg.Done()
 			defer func() {
 				if p := recover(); p != nil {
 					note(p)
@@ -400,12 +425,17 @@ func c20Run(wl c20Workload) (*sim.World, *c20Outcome) {
 			}
 			out.remoteUnits++
 			i += n
-			_ = a.CreatePushPullPack()
+			c20CheckPack(a.CreatePushPullPack(), note)
+			runtime.Gosched()
+		}
+		// packs built while the other goroutines are still at work (a sync of a realtime client does that)
+		for j := 0; j < 200 && atomic.LoadInt32(&scriptsDone) == 0; j++ {
+			c20CheckPack(a.CreatePushPullPack(), note)
 			runtime.Gosched()
 		}
 	}()
 	done := make(chan struct{})
-	go func() { wg.Wait(); close(done) }()
+	go func() { swg.Wait(); atomic.StoreInt32(&scriptsDone, 1); wg.Wait(); close(done) }()
 	select {
 	case <-done:
 	case <-time.After(20 * time.Second):
